@@ -104,9 +104,39 @@ def run(rep: core.Report):
     for ad in addends:
         subs_names |= {y["referencedDecl"]["name"] for y in cast.walk(ad) if y.get("kind") == "DeclRefExpr"}
     params = [p["name"] for p in cast.params(gd)]
-    # loop variables of the two Cartesian loops around the addend are fine; anything tied to the supercell atom k is not
-    image_vars = subs_names - {"charge_sum", "i", "j", "num_patom", "l", "m"}
-    rep.instance("R08c", DYN, "get_dm", f"addend '{core.norm(cast.text(addends[0]), 60)}' mentions {sorted(subs_names)}", not image_vars and "k" in params,
+    # by role: the image is the argument that get_dynmat_ij fills with the variable of its loop over the supercell
+    # atoms; everything computed from it inside get_dm (data flow through assignments) is tied to the image
+    gij = tu.functions.get("get_dynmat_ij")
+    if gij is None:
+        raise AnalysisError("anchor vanished: get_dynmat_ij")
+    image_param = None
+    for lp in cast.walk(gij):
+        if lp.get("kind") != "ForStmt":
+            continue
+        calls_ = [y for y in cast.walk(lp) if y.get("kind") == "CallExpr" and cast.callee_name(y) == "get_dm"]
+        conds = [y for y in cast.kids(lp) if y.get("kind") == "BinaryOperator" and y.get("opcode") in ("<", "<=")]
+        if not calls_ or not conds:
+            continue
+        lv = cast.ref_name(cast.strip(cast.kids(conds[0])[0]))
+        for pos, a_ in enumerate(cast.call_args(calls_[0])):
+            if cast.ref_name(cast.strip(a_)) == lv and pos < len(params):
+                image_param = params[pos]
+    if image_param is None:
+        raise AnalysisError("R08c: the image loop of get_dynmat_ij no longer hands its variable to get_dm")
+    tainted = {image_param}
+    changed = True
+    while changed:
+        changed = False
+        for x in cast.walk(gd):
+            if x.get("kind") in ("BinaryOperator", "CompoundAssignOperator") and (x.get("opcode") == "=" or x.get("kind") == "CompoundAssignOperator"):
+                l_, r_ = cast.kids(x)
+                base = [y["referencedDecl"]["name"] for y in cast.walk(l_) if y.get("kind") == "DeclRefExpr"][:1]
+                used = {y["referencedDecl"]["name"] for y in cast.walk(r_) if y.get("kind") == "DeclRefExpr"}
+                if base and base[0] not in tainted and used & tainted:
+                    tainted.add(base[0])
+                    changed = True
+    image_vars = subs_names & tainted
+    rep.instance("R08c", DYN, "get_dm", f"addend '{core.norm(cast.text(addends[0]), 60)}' mentions {sorted(subs_names)}; tied to the image: {sorted(tainted)}", not image_vars,
                  f"the Wang addend depends on {sorted(image_vars)} (the supercell atom or its lattice vectors): it differs between the images of one primitive atom, so it no longer cancels in the Fourier sum at commensurate q", line=tu.line(gd))
     pw = core.find_def(PYDM, "DynamicalMatrixWang._run_py_Wang_force_constants")
     adds = [a_ for a_ in ast.walk(pw) if isinstance(a_, ast.AugAssign) and isinstance(a_.op, ast.Add) and core.src(a_.target).startswith("fc[")]
